@@ -413,6 +413,13 @@ func (o *ObjectSchema) validateRawCompatibility(typeOrData any) error {
 		// Validate object fields
 		return o.validateMapTypesCompatibility(fieldData)
 	}
+	if schemaType, isSchema := typeOrData.(Type); isSchema {
+		// A schema that does not denote an object can never be consumed by an object; do not treat it as data
+		// (a single-property object would hand it to its property, recursing forever through a self-reference).
+		return &ConstraintError{
+			Message: fmt.Sprintf("schema type %T (%s) is not compatible with an object schema", typeOrData, schemaType.TypeID()),
+		}
+	}
 	// Try validating as data
 	_, err := o.Unserialize(typeOrData)
 	if err != nil {
